@@ -27,12 +27,16 @@ func appendEfaceSlice(buf []byte, l []interface{}, marshal func(interface{}) ([]
 }
 
 func decodeLength(buf []byte, n *int) ([]byte, error) {
-	k, len := binary.Uvarint(buf)
-	if len <= 0 {
+	k, used := binary.Uvarint(buf)
+	if used <= 0 {
+		return nil, errors.New("bad length")
+	}
+	// a count or a byte length can never exceed the bytes that follow it
+	if k > uint64(len(buf)-used) {
 		return nil, errors.New("bad length")
 	}
 	*n = int(k)
-	return buf[len:], nil
+	return buf[used:], nil
 }
 
 func decodeBytes(buf []byte, body *[]byte) ([]byte, error) {
